@@ -100,6 +100,22 @@ PROPS = {
                         "check that observed keys have the shape the theorem assumes"],
         "open_statements": ["comparison with a build using -tags coraza.no_memoize is not wired into the check yet"],
     },
+    "C19": {
+        "engines": [{"name": "audit", "quick": 9000, "thorough": 300000, "shards": 8},
+                    {"name": "auditconc", "quick": 6, "thorough": 60, "shards": 4}],
+        "nontrivial": lambda l, v: " => w=1" in l or "records=" in l,
+        "rule": _ENG_RULE + "audit: the engine cases extended with SecAuditEngine On/Off/RelevantOnly (also switched by "
+                "ctl:auditEngine), a relevant-status pattern (none, ^4, ^5, 403, ^403$, …), response status, SecAuditLogParts and "
+                "ctl:auditLogParts modifications, log/nolog/auditlog/noauditlog per rule, interruptions and DetectionOnly; "
+                "ProcessLogging invoked once; the real serial writer writes JSON (record count, transaction id, rule id per "
+                "message) and, in a second run, Native (section letters). auditconc: 8-31 goroutines x 50-199 transactions "
+                "share one serial writer; every line must be one JSON document and none lost. Non-trivial = a record was written.",
+        "modelled": _ENG_MODELLED + " Audit: the decision of ProcessLogging, ApplyAuditLogParts/ParseAuditLogParts, which "
+                    "rules appear in the record (parts K/H), the error callback. Formatters and encoding/json are not modelled.",
+        "assumptions": _ENG_ASSUME + ["encoding/json produces one line per record; log.Logger serialises whole Println calls"],
+        "open_statements": ["RelevantOnly without a configured pattern is outside the property's wording; the model mirrors "
+                            "the code (C19_decision_no_pattern)"],
+    },
     "C09": {
         "engines": [_eng("acct", 25000, 800000), _eng("", 10000, 300000)],
         "nontrivial": _eng_nontrivial, "rule": _ENG_RULE + "Profile `acct`: more setvar (+N, -N, assign, delete, macro keys/values), chains, multiMatch.",
